@@ -15,12 +15,12 @@ RULE = ("E2: breadth-first search over all histories of public editing operation
         "JunctionTree, MarkovNetwork, DAG(ebunch) construction. non-trivial = distinct transitions that were rejected "
         "(raised) or that act on a model with >=1 CPD / >=2 handles")
 BOUNDS = {"quick": "BN{a,b,c}: depth 3 from the empty model (full alphabet, 2 handles) and depth 2 from the seeded state a->b,a->c with CPDs; BN{a,b}: depth 4; DBN depth 3; JT depth 3; MN depth 3; DAG(ebunch): all edge lists on <=3 nodes (incl. self loops)",
-          "thorough": "BN{a,b,c}: depth 4 (empty start), depth 3 (seeded start); BN{a,b}: depth 6; DBN depth 4; JT depth 4; MN depth 4"}
+          "thorough": "BN{a,b,c}: depth 4 (empty start), depth 4 (seeded start); BN{a,b}: depth 6; DBN depth 5; JT depth 5; MN depth 5"}
 EXHAUSTIVE = {"quick": True, "thorough": True}
 ASSUMPTIONS = ["numpy.random is re-seeded by the harness before get_random_cpds so that histories are replayable",
                "at most two handles (the original and one copy) are alive"]
 
-DEPTH = {"quick": {"bn3": 3, "bn3s": 2, "bn2": 4, "dbn": 3, "jt": 3, "mn": 3}, "thorough": {"bn3": 4, "bn3s": 3, "bn2": 6, "dbn": 4, "jt": 4, "mn": 4}}
+DEPTH = {"quick": {"bn3": 3, "bn3s": 2, "bn2": 4, "dbn": 3, "jt": 3, "mn": 3}, "thorough": {"bn3": 4, "bn3s": 4, "bn2": 6, "dbn": 5, "jt": 5, "mn": 5}}
 
 
 def custom_explore(tier, seed):
